@@ -549,6 +549,30 @@ fn calc_busy_timeout(wal_size: u64, threshold: u64) -> u64 {
     timeout
 }
 
+/// What the seen-cache remembers of a changeset: actor, versions and (for non-empty ones) seqs.
+type SeenKey = (
+    ActorId,
+    std::ops::RangeInclusive<klukai_types::base::CrsqlDbVersion>,
+    Option<std::ops::RangeInclusive<CrsqlSeq>>,
+);
+
+/// Applies one batch; on failure hands back what the batch was made of, so that the caller can
+/// forget it.
+async fn process_batch(
+    agent: Agent,
+    bookie: Bookie,
+    changes: Vec<(ChangeV1, ChangeSource, Instant)>,
+    tx_timeout: Duration,
+) -> Result<(), (klukai_types::agent::ChangeError, Vec<SeenKey>)> {
+    let keys: Vec<SeenKey> = changes
+        .iter()
+        .map(|(change, _, _)| (change.actor_id, change.versions(), change.seqs().cloned()))
+        .collect();
+    process_multiple_changes(agent, bookie, changes, tx_timeout)
+        .await
+        .map_err(|e| (e, keys))
+}
+
 /// Bundle incoming changes to optimise transaction sizes with SQLite
 ///
 /// *Performance tradeoff*: introduce latency (with a max timeout) to
@@ -611,12 +635,7 @@ pub async fn handle_changes(
             let changes = std::mem::take(&mut buf);
             let agent = agent.clone();
             let bookie = bookie.clone();
-            join_set.spawn(process_multiple_changes(
-                agent,
-                bookie,
-                changes.clone(),
-                tx_timeout,
-            ));
+            join_set.spawn(process_batch(agent, bookie, changes, tx_timeout));
             counter!("corro.agent.changes.batch.spawned").increment(1);
 
             buf_cost -= tmp_cost;
@@ -629,8 +648,24 @@ pub async fn handle_changes(
             // but we need to drain it to free up concurrency
             res = join_set.join_next(), if !join_set.is_empty() => {
                 debug!("processed multiple changes concurrently");
-                if let Some(Ok(Err(e))) = res {
+                if let Some(Ok(Err((e, failed)))) = res {
                     error!("could not process multiple changes: {e}");
+                    // nothing of that batch was stored: it must not count as seen, or its
+                    // changes would be refused as duplicates when they are offered again
+                    for (actor_id, versions, seqs) in failed {
+                        for v in versions {
+                            if let Entry::Occupied(mut entry) = seen.entry((actor_id, v)) {
+                                if let Some(seqs) = seqs.clone() {
+                                    entry.get_mut().remove(seqs);
+                                    if entry.get().is_empty() {
+                                        entry.swap_remove_entry();
+                                    }
+                                } else {
+                                    entry.swap_remove_entry();
+                                }
+                            }
+                        }
+                    }
                 }
                 continue;
             },
@@ -654,7 +689,7 @@ pub async fn handle_changes(
                     let changes: Vec<_> = queue.drain(..).collect();
                     let agent = agent.clone();
                     let bookie = bookie.clone();
-                    join_set.spawn(process_multiple_changes(agent, bookie, changes.clone(), tx_timeout));
+                    join_set.spawn(process_batch(agent, bookie, changes, tx_timeout));
                     counter!("corro.agent.changes.batch.spawned").increment(1);
                     buf_cost = 0;
                 }
